@@ -163,3 +163,91 @@ CONTRACTS.update({
         modifies=[],
     ),
 })
+
+
+# ----------------------------------------------------------------------------- incompatibility back-propagation (C06)
+# DE(d, n): a derivation edge from d to n
+DE = "exists('k:Int', (d, n, k, EdgeType.DERIVES) in graph.edge_set)"
+CLASSES['SelectionChoiceNode'] = {}
+ITER_IN_C = dict(params=['graph', 'node', 'cache'], types={}, returns=f'Set[{EDGE}]', modifies=[], assumed=True,
+                 # T-nx + coherent cache: exactly the edges entering `node`
+                 ensures=[f"forall('e:{EDGE}', (e in result) == (e in graph.edge_set and e[1] == node))"])
+ITER_OUT_C = dict(params=['graph', 'node', 'cache'], types={}, returns=f'Set[{EDGE}]', modifies=[], assumed=True,
+                  ensures=[f"forall('e:{EDGE}', (e in result) == (e in graph.edge_set and e[0] == node))"])
+# covered(n, R): every node deriving n is in R, or is a selection-choice node (handled by the all-options rule)
+COVERED = "forall('d:Ref', implies(DE(d, n), d in R or isinstance(d, SelectionChoiceNode)))"
+
+CONTRACTS[I + 'get_incompatibility_deriving_nodes'] = dict(
+    properties=['C06'],
+    types={'graph': 'Ref[NxGraph]', 'target_node': 'Ref', 'confirmed_nodes': 'Set[Ref]',
+           '_deriving_nodes': 'Optional[Set[Ref]]', 'cache': 'Ref'},
+    returns='Set[Ref]',
+    locals={'deriving_nodes': 'Set[Ref]', 'option_decision_nodes': 'Set[Ref]', 'option_nodes': 'Set[Ref]'},
+    defs={'DE': (('d', 'n'), DE), 'covered': (('n', 'R'), COVERED),
+          'inD0': (('x',), '_deriving_nodes is not None and x in _deriving_nodes')},
+    calls={'iter_in_edges_cached': ITER_IN_C, 'iter_out_edges_cached': ITER_OUT_C, 'get_edge_type': GET_TYPE,
+           'get_incompatibility_deriving_nodes': I + 'get_incompatibility_deriving_nodes'},
+    loops={
+        'for edge in iter_in_edges_cached(graph, target_node, cache=cache)': dict(processed='P', invariant={
+            'grows': "target_node in deriving_nodes and forall('x:Ref', implies(inD0(x), x in deriving_nodes))",
+            'processed-in-edges-covered': f"forall('e:{EDGE}', implies(e in P and e[3] == EdgeType.DERIVES, "
+                                          "e[0] in deriving_nodes or (isinstance(e[0], SelectionChoiceNode) and e[0] in option_decision_nodes)))",
+            'added-nodes-covered': "forall('n:Ref', implies(n in deriving_nodes and not inD0(n) and not (n in confirmed_nodes) "
+                                   "and n != target_node, covered(n, deriving_nodes)))",
+            'choices-are-choices': "forall('c:Ref', implies(c in option_decision_nodes, isinstance(c, SelectionChoiceNode)))",
+        }),
+        'for option_decision_node in option_decision_nodes': dict(processed='P2', invariant={
+            'grows': "target_node in deriving_nodes and forall('x:Ref', implies(inD0(x), x in deriving_nodes))",
+            'target-covered': "covered(target_node, deriving_nodes)",
+            'added-nodes-covered': "forall('n:Ref', implies(n in deriving_nodes and not inD0(n) and not (n in confirmed_nodes) "
+                                   "and n != target_node, covered(n, deriving_nodes)))",
+        }),
+    },
+    ensures={
+        'target-and-given-nodes-included': ('carrier', "target_node in result and forall('x:Ref', implies(inD0(x), x in result))"),
+        # statement of C06 (under-pruning direction): whatever derives the incompatible target -- through any of its
+        # in-edges -- is collected, except through a selection choice that keeps another option
+        'every-deriving-node-of-the-target-collected': ('property', "covered(target_node, result)"),
+        'every-deriving-node-of-collected-nodes-collected': ('property',
+            "forall('n:Ref', implies(n in result and not inD0(n) and not (n in confirmed_nodes) and n != target_node, covered(n, result)))"),
+    },
+    modifies=[],
+)
+
+
+def _domain_deriving(n):
+    import random, os
+    import networkx as nx
+    from adsg_core.graph.incompatibility import get_incompatibility_deriving_nodes
+    from adsg_core.graph.graph_edges import EdgeType, add_edge
+    from adsg_core.graph.adsg_nodes import NamedNode, SelectionChoiceNode
+    rng = random.Random(8100 + int(os.environ.get('VERIF_SEED', '0') or 0))
+    types = [EdgeType.DERIVES, EdgeType.DERIVES, EdgeType.DERIVES, EdgeType.CONNECTS, EdgeType.INCOMPATIBILITY]
+    for _ in range(n):
+        nn = rng.randint(2, 8)
+        nodes = [SelectionChoiceNode(f'c{i}') if rng.random() < 0.3 else NamedNode(f'n{i}') for i in range(nn)]
+        g = nx.MultiDiGraph()
+        g.add_nodes_from(nodes)
+        es = set()
+        for _ in range(rng.randint(1, 12)):
+            u, v = rng.choice(nodes), rng.choice(nodes)
+            if isinstance(u, SelectionChoiceNode) and isinstance(v, SelectionChoiceNode):
+                continue
+            t = rng.choice(types)
+            key = g.new_edge_key(u, v)
+            add_edge(g, u, v, key=key, edge_type=t)
+            es.add((u, v, key, t))
+        g.edge_set = es
+        target = rng.choice(nodes)
+        confirmed = set(x for x in nodes if x is not target and rng.random() < 0.2)
+        cache = {} if rng.random() < 0.5 else None
+        env = {'graph': g, 'target_node': target, 'confirmed_nodes': set(confirmed), '_deriving_nodes': None, 'cache': cache,
+               'EdgeType': EdgeType, 'SelectionChoiceNode': SelectionChoiceNode}
+        yield (env, (lambda g=g, target=target, confirmed=confirmed, cache=cache:
+                     get_incompatibility_deriving_nodes(g, target, set(confirmed), cache=cache)),
+               {'Ref': nodes, 'Int': list(range(0, 4))},
+               f'get_incompatibility_deriving_nodes(nodes={[str(x) for x in nodes]}, edges={[(str(u), str(v), k, t.name) for u, v, k, t in es]}, '
+               f'target={target!s}, confirmed={[str(c) for c in confirmed]})')
+
+
+DOMAIN[I + 'get_incompatibility_deriving_nodes'] = _domain_deriving
